@@ -10,6 +10,7 @@ import DaskModel.Model.DTypes
 import DaskModel.Model.CoMomentIO
 import DaskModel.Model.RelExpr2IO
 import DaskModel.Model.OverlapTime2IO
+import DaskModel.Model.MetaLabelsIO
 open Dask
 
 /-! Line-protocol handlers of group dfrows (C36 C37 C42 C43 C46). Cells: an integer or `none`. -/
@@ -628,6 +629,6 @@ def table : List (String × Handler) := [
   ("reduce2", hReduce2), ("reduce2spec", hReduce2Spec), ("idxfn", hIdxFn), ("vcfn", hVcFn), ("mmfn", hMmFn),
   ("opteval", hOptEval), ("optcheck", hOptCheck), ("metaof", hMetaOf),
   ("rewritefilters", hRewriteFilters), ("predcomps", hPredComps),
-  ("dtypeof", hDTypeOf), ("bindtype", hBinDType), ("notdtype", hNotDType)] ++ Dask.CoMomentIO.handlers ++ Dask.RelExpr2IO.handlers ++ Dask.OverlapTime2IO.handlers
+  ("dtypeof", hDTypeOf), ("bindtype", hBinDType), ("notdtype", hNotDType)] ++ Dask.CoMomentIO.handlers ++ Dask.RelExpr2IO.handlers ++ Dask.OverlapTime2IO.handlers ++ Dask.MetaLabelsIO.handlers
 
 def main : IO Unit := runDriver table
